@@ -5,7 +5,7 @@
    owner's stored link set as the finite-set reading says, Count/Find report exactly those links,
    the distinct in-memory records are exactly those links, associated records survive (and no kept
    link loses its record). *)
-From Verif Require Export Base C12_Model.
+From Verif Require Export Base C12_Model C12_Elems.
 Open Scope Z_scope.
 
 Fixpoint insz (x : Z) (l : list Z) : list Z :=
@@ -27,6 +27,8 @@ Record snap := mk_snap {
   n_count : Z;               (* Association(...).Count() *)
   n_find  : list Z;          (* ids returned by Association(...).Find() *)
   n_mem   : list (list Z);   (* per owner: ids held by the in-memory relation field, in order *)
+  n_fks   : list (list (option Z)); (* per owner: what the foreign-key FIELD of each held element holds in
+                                memory (has one / has many; as an owner id), None = unset / no such field *)
   n_other : list (Z * Z);    (* raw links of the same tables that do not belong to the handle *)
   n_err   : Z                (* 0 = the operation returned no error *)
 }.
@@ -34,16 +36,21 @@ Record snap := mk_snap {
 Record case := mk_case {
   c_kind : kind;
   c_os : list Z;                 (* owners of the handle *)
-  c_init : st;                   (* tables as dumped before the first operation; memory empty *)
-  c_ops : list (bool * op);      (* (Unscoped?, operation as executed: new targets carry their assigned ids) *)
+  c_init : est;                  (* tables as dumped before the first operation; the in-memory fields as loaded *)
+  c_eops : list (bool * eop);    (* (Unscoped?, operation as executed: the objects passed - new targets carry
+                                    their assigned ids, every object the foreign key its field held when the
+                                    call was made - or references into the owner's own relation field) *)
   c_snap0 : snap;
   c_snaps : list snap
 }.
 
-Definition snap_of (k : kind) (os : list Z) (se : st * bool) : snap :=
+Definition snap_of (k : kind) (os : list Z) (fks : list (list (option Z))) (se : st * bool) : snap :=
   let s := fst se in
   mk_snap (map (fun o => sortz (links k s o)) os) (sortz (all_targets k s))
-          (count_ids k os s) (sortz (find_ids k os s)) (mem s) (others k os s) (if snd se then 1 else 0).
+          (count_ids k os s) (sortz (find_ids k os s)) (mem s) fks (others k os s) (if snd se then 1 else 0).
+(* a state of the object-level model (C12_Elems): the tables and ids through to_st, plus the key fields *)
+Definition snap_of_e (k : kind) (os : list Z) (e : est) : snap :=
+  snap_of k os (map (map snd) (e_mem e)) (to_st e, false).
 
 Definition lists_eqb (a b : list (list Z)) : bool := list_eqb zlist_eqb a b.
 Definition pairs_sub (a b : list (Z * Z)) : bool := forallb (fun p => memp p b) a.
@@ -51,14 +58,22 @@ Definition pairs_seteq (a b : list (Z * Z)) : bool := pairs_sub a b && pairs_sub
 Definition snap_eqb (a b : snap) : bool :=
   lists_eqb (n_links a) (n_links b) && zlist_eqb (n_tgts a) (n_tgts b)
   && (n_count a =? n_count b) && zlist_eqb (n_find a) (n_find b)
-  && lists_eqb (n_mem a) (n_mem b) && pairs_seteq (n_other a) (n_other b) && (n_err a =? n_err b).
+  && lists_eqb (n_mem a) (n_mem b)
+  && list_eqb (list_eqb (option_eqb Z.eqb)) (n_fks a) (n_fks b) && pairs_seteq (n_other a) (n_other b) && (n_err a =? n_err b).
 
+(* the object-level model (run_e) against every observed snapshot; and the key-level model (run) on the
+   erased history gives the same tables, ids and errors (C12_ElemsProofs proves it for all inputs) *)
+Definition snap_eqb_keys (a b : snap) : bool :=
+  snap_eqb a (mk_snap (n_links b) (n_tgts b) (n_count b) (n_find b) (n_mem b) (n_fks a) (n_other b) (n_err b)).
 Definition model_agrees (c : case) : bool :=
-  snap_eqb (c_snap0 c) (snap_of (c_kind c) (c_os c) (c_init c, false))
-  && list_eqb snap_eqb (c_snaps c) (map (snap_of (c_kind c) (c_os c)) (run (c_kind c) (c_os c) (c_init c) (c_ops c))).
+  let k := c_kind c in let os := c_os c in
+  snap_eqb (c_snap0 c) (snap_of_e k os (c_init c))
+  && list_eqb snap_eqb (c_snaps c) (map (snap_of_e k os) (run_e k os (c_init c) (c_eops c)))
+  && list_eqb snap_eqb_keys (c_snaps c)
+       (map (snap_of k os []) (run k os (to_st (c_init c)) (erase_hist k os (c_init c) (c_eops c)))).
 
 (* ---- the property, step by step on the observed snapshots ---- *)
-Definition snapshot_ok (k : kind) (s : snap) : bool :=
+Definition snapshot_ok (k : kind) (os : list Z) (s : snap) : bool :=
   let all := List.concat (n_links s) in
   (* Count and Find report exactly the stored links (belongs to: the distinct linked records,
      several owners may share one) *)
@@ -68,11 +83,34 @@ Definition snapshot_ok (k : kind) (s : snap) : bool :=
   (* the distinct in-memory records are exactly the links *)
   && (length (n_mem s) =? length (n_links s))%nat
   && forallb (fun p => set_eqb (fst p) (snd p)) (combine (n_mem s) (n_links s))
+  (* ... and every element a has-one / has-many field holds carries ITS OWNER's key in its foreign-key
+     field: the in-memory value names the same link as the stored one *)
+  && (length (n_fks s) =? length (n_mem s))%nat
+  && match k with
+     | KHasOne | KHasMany =>
+         forallb (fun p => forallb (fun f => option_eqb Z.eqb f (Some (fst p))) (snd p)) (combine os (n_fks s))
+     | _ => true
+     end
   (* every stored link points at an existing record *)
   && subset all (n_tgts s).
 
-Definition step_ok (k : kind) (before after : snap) (uo : bool * op) : bool :=
-  let '(u, o) := uo in
+(* the call as the property reads it: the primary keys of the records passed.  A reference into the
+   owner's own relation field names the record that field held BEFORE the call (observed snapshot). *)
+Definition obs_vals (before : snap) (vs : list (list arg)) : list (list Z) :=
+  map (fun mv => map (fun a => match a with AObj t _ => t | ARef p => nth p (fst mv) 0 end) (snd mv))
+      (combine (n_mem before) vs).
+Definition obs_op (before : snap) (o : eop) : op :=
+  match o with
+  | EAppend vs => OAppend (obs_vals before vs)
+  | EReplace vs => OReplace (obs_vals before vs)
+  | EDelete ts => ODelete ts
+  | EClear => OClear
+  | EAppendNone => OAppendNone
+  end.
+
+Definition step_ok (k : kind) (os : list Z) (before after : snap) (ueo : bool * eop) : bool :=
+  let '(u, eo) := ueo in
+  let o := obs_op before eo in
   (n_err after =? 0)
   && (length (n_links after) =? length (n_links before))%nat
   && forallb (fun p => set_eqb (fst p) (snd p))
@@ -96,24 +134,24 @@ Definition step_ok (k : kind) (before after : snap) (uo : bool * op) : bool :=
            forallb (fun t => memz t linked_after || negb (memz t (n_tgts after)))
                    (List.concat (n_links before))
          end)
-  && snapshot_ok k after.
+  && snapshot_ok k os after.
 
-Fixpoint steps_ok (k : kind) (prev : snap) (snaps : list snap) (ops : list (bool * op)) : bool :=
+Fixpoint steps_ok (k : kind) (os : list Z) (prev : snap) (snaps : list snap) (ops : list (bool * eop)) : bool :=
   match snaps, ops with
   | [], [] => true
-  | s :: snaps', o :: ops' => step_ok k prev s o && steps_ok k s snaps' ops'
+  | s :: snaps', o :: ops' => step_ok k os prev s o && steps_ok k os s snaps' ops'
   | _, _ => false
   end.
 
 Definition spec_holds (c : case) : bool :=
-  snapshot_ok (c_kind c) (c_snap0 c) && steps_ok (c_kind c) (c_snap0 c) (c_snaps c) (c_ops c).
+  snapshot_ok (c_kind c) (c_os c) (c_snap0 c) && steps_ok (c_kind c) (c_os c) (c_snap0 c) (c_snaps c) (c_eops c).
 
 Definition check_case (c : case) : N := code_of (model_agrees c) (spec_holds c).
 
 (* diagnosis helper (not part of the verdict): index of the first operation whose step_ok fails *)
-Fixpoint first_bad (k : kind) (prev : snap) (snaps : list snap) (ops : list (bool * op)) (i : N) : option N :=
+Fixpoint first_bad (k : kind) (os : list Z) (prev : snap) (snaps : list snap) (ops : list (bool * eop)) (i : N) : option N :=
   match snaps, ops with
-  | s :: snaps', o :: ops' => if step_ok k prev s o then first_bad k s snaps' ops' (N.succ i) else Some i
+  | s :: snaps', o :: ops' => if step_ok k os prev s o then first_bad k os s snaps' ops' (N.succ i) else Some i
   | _, _ => None
   end.
-Definition diag (c : case) : option N := first_bad (c_kind c) (c_snap0 c) (c_snaps c) (c_ops c) 0.
+Definition diag (c : case) : option N := first_bad (c_kind c) (c_os c) (c_snap0 c) (c_snaps c) (c_eops c) 0.
